@@ -282,6 +282,18 @@ def execute(wd, sc):
                 idxs = [op[2]] if kind == "draw" else op[2]
                 us = [pool[i] for i in idxs]
                 res = do_sample(samplers[ci], us, f"op {oi} {kind} on copy {ci} ({lineage[ci]})")
+                if kind == "draw" and hasattr(samplers[ci], "sample_with_u") and ucls(us[0]) == "u-interior":
+                    # the single-uniform entry point must agree with the batch call
+                    try:
+                        st1 = int(np.asarray(samplers[ci].sample_with_u(us[0])).ravel()[0])
+                        wd.probes["c02.single_entry_point_compared"] += 1
+                        if res and st1 != res[0]:
+                            add(f"C02.E|single-uniform entry point and batch call disagree for the same uniform|{cls}",
+                                {"u": us[0], "batch": res[0], "single": st1, "op": oi})
+                    except HarnessError:
+                        raise
+                    except Exception as e:
+                        wd.probes["c02.single_entry_point_raised"] += 1
                 for u, st in zip(us, res):
                     check_state(st, u, f"op {oi}")
                     if u in table:
